@@ -1,7 +1,7 @@
 (* C06 - Every counted line lands in exactly one platform set; all reports agree.
    Statements only. *)
-From Coq Require Import ZArith String Bool Arith Permutation Sorted List.
-From CBI Require Import Lib.Data Lib.Res Model.C06 Spec.C06 Proofs.C06 Proofs.C06tree Proofs.C06more Proofs.C06letters Proofs.C06rowsx.
+From Coq Require Import ZArith QArith String Bool Arith Permutation Sorted List.
+From CBI Require Import Lib.Data Lib.Res Model.C06 Spec.C06 Proofs.C06 Proofs.C06tree Proofs.C06more Proofs.C06letters Proofs.C06rowsx Proofs.C06leaf.
 Import ListNotations.
 Local Open Scope Z_scope.
 
@@ -177,6 +177,31 @@ Theorem C06_tree_rows : forall U prune files q n d, names_in U files ->
   rper r = map (fun p => spec_dir (mem p) prune q files) (eff_plats rp U (tsm n)).
 Proof. exact dir_row. Qed.
 Print Assumptions C06_tree_rows.
+
+(* The same for the row of a regular (non-link) shown file whose leaf carries the
+   file's setmap (which C06_tree_dir_sums guarantees on well-formed paths): its
+   cells are computed from sums over the file's own nodes. *)
+Theorem C06_tree_file_rows : forall U prune files f n d, names_in U files ->
+  (forall g, In g files -> fpath g <> []) ->
+  In f files -> shown prune f = true -> flink f = false -> tsm n = file_setmap f ->
+  let rp := node_plats U (tsm (files_tree prune files)) in
+  let r := mkrow rp U d n in
+  rtotal r = nodes_sum (fun _ => true) (fnodes f) /\
+  rused r = nodes_sum (fun k => negb (is_empty k)) (fnodes f) /\
+  rmask r = map (fun p => existsb (fun x => mem p (nplat x)) (fnodes f)) rp /\
+  rper r = map (fun p => nodes_sum (mem p) (fnodes f)) (eff_plats rp U (tsm n)).
+Proof. exact file_row. Qed.
+Print Assumptions C06_tree_file_rows.
+
+(* Percentages, as rationals: each row's percentage (count / denominator * 100) is
+   its bucket over the SLOC times 100, and the percentages of a printed summary
+   add up to exactly 100. *)
+Theorem C06_percent_sum : forall files rows total,
+  summary (get_setmap files) = Ok (rows, total) -> sloc files <> 0 ->
+  (forall r, In r rows -> (percent r == inject_Z (bucket (skey r) files) / inject_Z (sloc files) * 100)%Q) /\
+  (qsum (map percent rows) == 100)%Q.
+Proof. exact percent_sum. Qed.
+Print Assumptions C06_percent_sum.
 
 (* non-vacuity: two directories, a file used by two platforms with an unused block,
    a header used by one platform, an unused header, and a symlink to a member *)
